@@ -120,3 +120,40 @@ Print Assumptions C12_glob_names_arrive_unchanged.
 Theorem C12_glob_names_with_line_break_refuted : exists names, client_names names <> names.
 Proof. exact names_with_line_break_refuted. Qed.
 Print Assumptions C12_glob_names_with_line_break_refuted.
+
+(** ** which file a name denotes (Model/Path.v: [filepath.Join] / [Clean], compared with Go's on every
+    run by the [pathclean] / [pathjoin] operations; the model's world looks every name up through the
+    extracted [path_clean]).  The local read opens Join(base directory, relative name); the server opens
+    Join(served directory, name received).  At the level of path elements: *)
+From WT Require Import Model.Path Proofs.PathProofs.
+
+(** what resolution keeps: a run of ".." (none under a rooted path) followed by ordinary elements *)
+Theorem C12_resolved_path_shape rooted es :
+  exists n p, clean_elems rooted es = dots n ++ p /\ Forall plain p /\ (rooted = true -> n = 0%nat).
+Proof. exact (clean_elems_shape rooted es). Qed.
+Print Assumptions C12_resolved_path_shape.
+
+(** resolving twice is resolving once, and a resolved prefix (the base directory, given in any spelling)
+    resolves the same *)
+Theorem C12_resolution_idempotent rooted es : clean_elems rooted (clean_elems rooted es) = clean_elems rooted es.
+Proof. exact (clean_elems_idempotent rooted es). Qed.
+Print Assumptions C12_resolution_idempotent.
+
+Theorem C12_base_spelling_is_irrelevant rooted base rel :
+  clean_elems rooted (base ++ rel) = clean_elems rooted (clean_elems rooted base ++ rel).
+Proof. exact (clean_elems_prefix rooted base rel). Qed.
+Print Assumptions C12_base_spelling_is_irrelevant.
+
+(** the two routes to the same file: the local read resolves (served directory + prefix) and then the
+    relative name; the server receives the name the client resolved from (prefix + relative name) --
+    possibly starting with ".." elements that leave the prefix -- and resolves it under the served
+    directory *)
+Theorem C12_server_and_local_read_resolve_the_same_file rooted dir prefix rel :
+  clean_elems rooted (clean_elems rooted (dir ++ prefix) ++ rel) = clean_elems rooted (dir ++ clean_elems false (prefix ++ rel)).
+Proof. exact (resolution_is_associative rooted dir prefix rel). Qed.
+Print Assumptions C12_server_and_local_read_resolve_the_same_file.
+
+Example C12_resolution_example :
+  path_clean [47;115;47;105;49;47;46;46;47;46;46;47;111;117;116;47;120] = [47;111;117;116;47;120]     (* "/s/i1/../../out/x" = "/out/x" *)
+  /\ path_join [[97]; []; [46;46;47;99]] = [99].                                                       (* Join("a", "", "../c") = "c" *)
+Proof. split; reflexivity. Qed.
